@@ -23,7 +23,10 @@
 #include "hep/mc/mc_result.hpp"
 
 #include <cstddef>
+#include <ios>
 #include <iosfwd>
+#include <istream>
+#include <limits>
 #include <vector>
 
 namespace hep
@@ -62,6 +65,8 @@ public:
 
         for (std::size_t i = 0; i != size; ++i)
         {
+            // consume the newline written in front of every distribution, its name follows verbatim
+            in.ignore(std::numeric_limits<std::streamsize>::max(), '\n');
             distributions_.emplace_back(in);
         }
     }
